@@ -28,6 +28,7 @@ import (
 	"verifharness/kit/gen"
 	"verifharness/kit/hist"
 	"verifharness/kit/keys"
+	"verifharness/kit/refmodel"
 	"verifharness/kit/wire"
 )
 
@@ -556,7 +557,7 @@ func evalIntake(c *IntakeCase) (string, string) {
 				return "C15/intake-fault-swallowed", fmt.Sprintf("step %d (%s): ProcessOperation succeeded although a store/queue fault was injected", i, s.Kind)
 			}
 		}
-		if (s.Kind == "invalid" || s.Kind == "deactivated-did" || s.Kind == "unknown-did") && err == nil {
+		if (s.Kind == "invalid" || s.Kind == "deactivated-did" || s.Kind == "unknown-did" || s.Kind == "create-failing-patch") && err == nil {
 			return "C15/intake-accepted-bad-request", fmt.Sprintf("step %d: %s request accepted", i, s.Kind)
 		}
 		if len(w.adds) != wantQueue || unpub.Count() != wantUnpub {
@@ -576,7 +577,7 @@ func replayIntake(raw json.RawMessage) (string, string) {
 }
 
 func TestIntakeLeavesNoTrace(t *testing.T) {
-	ev.Rule(chkIntake, "rapid: an operation store seeded with 2 active DIDs and 1 deactivated DID; sequences of 1-10 DocumentHandler.ProcessOperation calls over valid creates, valid updates / deactivates for active DIDs, invalid requests (broken JSON, unknown type, bad hash), requests for the deactivated and for an unknown DID, with faults injected at the unpublished-store Put and at the batch-writer Add; oracle: after every call the recording queue and the unpublished store equal the model (only accepted-and-enqueued operations); a faulted call must return an error; non-trivial = a sequence with a refused or faulted call followed by an accepted one")
+	ev.Rule(chkIntake, "rapid: an operation store seeded with 2 active DIDs and 1 deactivated DID; sequences of 1-10 DocumentHandler.ProcessOperation calls over valid creates, valid updates / deactivates for active DIDs, invalid requests (broken JSON, unknown type, bad hash), creates whose patches fail to apply or leave the document empty (refused only after parsing and validation), requests for the deactivated and for an unknown DID, with faults injected at the unpublished-store Put and at the batch-writer Add; oracle: after every call the recording queue and the unpublished store equal the model (only accepted-and-enqueued operations); a faulted call must return an error; non-trivial = a sequence with a refused or faulted call followed by an accepted one")
 	ev.Rapid(t, chkIntake, 300, 3000, func(t *rapid.T) {
 		code := rapid.SampledFrom([]uint64{asm.SHA256, asm.SHA512}).Draw(t, "hash")
 		kt := rapid.SampledFrom(keys.AllTypes).Draw(t, "keyType")
@@ -601,12 +602,20 @@ func TestIntakeLeavesNoTrace(t *testing.T) {
 		n := rapid.IntRange(1, 10).Draw(t, "calls")
 		refusedThenAccepted, refused := false, false
 		for i := 0; i < n; i++ {
-			kind := rapid.SampledFrom([]string{"valid-create", "valid-update", "valid-update", "valid-deactivate", "invalid", "deactivated-did", "unknown-did"}).Draw(t, "callKind")
+			kind := rapid.SampledFrom([]string{"valid-create", "valid-update", "valid-update", "valid-deactivate", "invalid", "deactivated-did", "unknown-did", "create-failing-patch", "create-empty-document"}).Draw(t, "callKind")
 			s := IntakeStep{Kind: kind}
 			mk := map[string]interface{}{fmt.Sprintf("m%d", i): "v"}
 			switch kind {
 			case "valid-create":
 				s.Request = hist.NewCreate(hist.CreateSpec{Name: "c", Code: code, Recovery: keys.Get(kt, "c15n", 2*i), Update: keys.Get(kt, "c15n", 2*i+1), Markers: mk}).Request
+			case "create-failing-patch":
+				// parses and validates, but its patches cannot be applied: intake refuses it (empty document)
+				s.Request = hist.NewCreate(hist.CreateSpec{Name: "c", Code: code, Recovery: keys.Get(kt, "c15n", 2*i), Update: keys.Get(kt, "c15n", 2*i+1), Opt: hist.Opt{Delta: refmodel.DeltaFailPatch}}).Request
+			case "create-empty-document":
+				// valid patches that leave the document empty: intake refuses it
+				cr := &asm.Create{Code: code, RecoveryCommit: asm.Commit(keys.Get(kt, "c15n", 2*i), code),
+					Delta: asm.Delta(asm.Commit(keys.Get(kt, "c15n", 2*i+1), code), []interface{}{map[string]interface{}{"action": "remove-public-keys", "ids": []interface{}{"k1"}}})}
+				s.Request = cr.Bytes()
 			case "valid-update":
 				d := dids[rapid.IntRange(0, 1).Draw(t, "did")]
 				s.Request = hist.NewSigned(hist.SignedSpec{Name: "u", Type: "update", Suffix: d.suffix, Code: code, Reveal: d.upd, NextUpd: keys.Get(kt, "c15n", 100+i), Markers: mk}).Request
@@ -626,7 +635,7 @@ func TestIntakeLeavesNoTrace(t *testing.T) {
 			case 1:
 				s.FailUnpub = true
 			}
-			bad := s.FailQueue || s.FailUnpub || kind == "invalid" || kind == "deactivated-did" || kind == "unknown-did"
+			bad := s.FailQueue || s.FailUnpub || kind == "invalid" || kind == "deactivated-did" || kind == "unknown-did" || kind == "create-failing-patch" || kind == "create-empty-document"
 			if refused && !bad {
 				refusedThenAccepted = true
 			}
